@@ -1444,10 +1444,20 @@ func (vm *VM) run() (Addr, bool) {
 						}
 					}
 				default:
-					if kind == reflect.Pointer {
-						v = v.Elem()
+					var length int
+					if kind == reflect.Pointer && v.IsNil() {
+						// Ranging over a nil pointer to array panics only
+						// if the elements are read.
+						if c != 0 {
+							panic(errNilPointer)
+						}
+						length = v.Type().Elem().Len()
+					} else {
+						if kind == reflect.Pointer {
+							v = v.Elem()
+						}
+						length = v.Len()
 					}
-					length := v.Len()
 					for i := range length {
 						if b != 0 {
 							vm.setInt(b, int64(i))
